@@ -167,9 +167,13 @@ fn dt(ms: i64) -> DateTime<Utc> {
 }
 
 fn name_for(seq: usize) -> String {
-    let t = match seq {
-        1 => "S",
-        55 => "E",
+    // The statement speaks about sequence numbers; the type letter of a name is independent of
+    // it (short volumes end with an E chunk below 55), so it is varied deterministically.
+    let t = match (seq, seq % 7) {
+        (_, 3) => "E",
+        (_, 5) => "S",
+        (1, _) => "S",
+        (55, _) => "E",
         _ => "I",
     };
     format!("20240804-101007-{:03}-{}", seq, t)
@@ -459,14 +463,16 @@ impl Check for C19 {
                 1 => tape.draw(200) as usize,
                 _ => 0,
             };
-            let dur_mode = tape.draw(3);
+            let dur_mode = tape.draw(4);
             let mut t = s3sim::EPOCH_MS;
             let mut seq = 1 + tape.draw(54) as usize;
             for i in 0..nsteps {
                 let d = match dur_mode {
                     0 => tape.draw(60_001) as i64,
                     1 => [0i64, 1, 999, 1000, 4000, 60_000][tape.draw(6) as usize],
-                    _ => 3_000 + tape.draw(9_000) as i64,
+                    2 => 3_000 + tape.draw(9_000) as i64,
+                    // bursts: every chunk carries the same second-resolution stamp
+                    _ => 0,
                 };
                 let st = Step { cuts_id: 0, prev_seq: seq, prev_time_ms: t, duration_ms: d, attempts: 1 + tape.draw(5) as usize };
                 ctx.class.u(seq as u64);
